@@ -215,3 +215,17 @@ also("C16", "Also: parse_offset's sign shape; the abbreviation index read from t
 also("C17", "Also: the span that is classified is the caller's span unmodified; the input is returned unchanged exactly on the paths that tested stamp % span == 0.")
 also("C18", "Also: in Cache::offset the staleness test dominates both lookups; a leading ':' is stripped before the file lookup.")
 also("C20", "Also: TimeDelta's Serialize writes the raw (secs, nanos) fields that Deserialize hands to TimeDelta::new.")
+
+# ---- additions after the fourth round of seeded changes ------------------------------------------------------------------------
+also("C01", "Also: from_ordinal_and_flags accepts exactly ordinal 1..=366 on the argument and MIN_YEAR..=MAX_YEAR; year_ce's BCE branch is 1 - year.")
+also("C02", "Also: the wrappers hand the instant to the zone through from_utc_datetime only.")
+also("C03", "Also: every binary operator impl passes its left operand as receiver / first argument of the function it delegates to.")
+also("C04", "Also: TimeZone::timestamp_* wrappers convert through from_utc_datetime only (shared with C02).")
+also("C06", "Also: every value checked_add / checked_sub return is the result of TimeDelta::new.")
+also("C08", "Also: each DateTime::with_X forwards to NaiveDateTime::with_X and consults at most the getter X().")
+also("C10", "Also: the fraction is printed with one format template per width and the three templates differ only in the width 3 / 6 / 9.")
+also("C13", "Also: a supplied offset is never replaced by the default in to_datetime (shared with C14).")
+also("C14", "Also: to_datetime uses the default offset 0 only where the offset field was found empty.")
+also("C15", "Also: a justification covers only as many source lines as it was reviewed for; an additional undischarged site with the same description is reported.")
+also("C16", "Also: both LocalTimeType constructors exclude ut_offset == i32::MIN on every Ok path; in the version 2/3 arm of parse() the footer is always present when the new-line tests run.")
+also("C17", "Also: every Ok path of the three rounding helpers has taken timestamp_nanos_opt() (one epoch basis for all spans).")
